@@ -404,6 +404,23 @@ impl<'a> ChainVisitor for Exec<'a> {
         };
         out.obtained = true;
         out.evals += 1;
+        // Same input, submitted again straight away (nothing in between): same value. A memo keyed
+        // by the raw input, a counter, a cache warmed by the first call would show here.
+        {
+            let mut scratch = Out::default();
+            let first = v.repr();
+            match obtain::<T>(&p.source, &mut scratch) {
+                Some(w) if w.repr() == first => out.probe("probe.source_resubmitted_immediately_same_value"),
+                Some(w) => out.violations.push((
+                    "same_input_same_value".to_string(),
+                    format!("source {} gave {first}; submitting the same input again immediately gave {}", p.source.kind(), w.repr()),
+                )),
+                None => out.violations.push((
+                    "same_input_same_value".to_string(),
+                    format!("source {} gave {first}; submitting the same input again immediately was rejected (or panicked)", p.source.kind()),
+                )),
+            }
+        }
         out.class(format!("source.{}.value", p.source.kind()));
         let vrepr = v.repr();
         out.log.str(&vrepr);
@@ -483,6 +500,22 @@ impl<'a> ChainVisitor for Exec<'a> {
                     ));
                     break;
                 }
+            }
+        }
+        // Validation and sanitisation are deterministic: obtaining the value from the same source
+        // once more (after everything above ran, on whatever thread) gives the same value.
+        if out.violations.is_empty() {
+            let mut scratch = Out::default();
+            match obtain::<T>(&p.source, &mut scratch) {
+                Some(w) if w.repr() == vrepr => out.probe("probe.source_re_evaluated_same_value"),
+                Some(w) => out.violations.push((
+                    "same_input_same_value".to_string(),
+                    format!("source {} gave {vrepr} the first time and {} the second time", p.source.kind(), w.repr()),
+                )),
+                None => out.violations.push((
+                    "same_input_same_value".to_string(),
+                    format!("source {} gave {vrepr} the first time and was rejected (or panicked) the second time", p.source.kind()),
+                )),
             }
         }
         let mut h = Fnv::default();
@@ -670,14 +703,25 @@ fn sweep(cfg: &Config, n: u64, keep_trace: bool, workers: usize) -> Stats {
 
 fn run_check(cfg: &Config) -> i32 {
     let t0 = Instant::now();
+    let mut determinism_diverged = false;
     let n: u64 = if cfg.thorough() { 12_000_000 } else { 800_000 };
     let stats = sweep(cfg, n, false, cfg.workers);
     let a = sweep(cfg, 2048, true, 3);
     let b = sweep(cfg, 2048, true, cfg.workers.max(2));
     if a.trace != b.trace {
-        report::harness_error("determinism probe failed: the same seeds produced different event logs");
+        determinism_diverged = true;
     }
     let out = report::settle_violations(cfg, &stats, &minimise);
+    if determinism_diverged {
+        if out.new_violations == 0 {
+            // The simulator is deterministic on the unchanged tree (./check selfcheck); if the same
+            // seeds give different event logs at different worker counts, something in the run has
+            // state that outlives a run. Without a concrete violation this is reported as a harness
+            // error, never as a property violation.
+            report::harness_error("determinism probe failed: the same seeds produced different event logs at different worker counts");
+        }
+        println!("NOTE: the determinism probe also diverged (results depend on which runs shared a worker thread: hidden state that outlives a run)");
+    }
     let wall = t0.elapsed().as_secs_f64();
     let must = [
         "probe.sanitizer_changed_the_source_input",
